@@ -1521,7 +1521,7 @@ import lines as L
 import subprocess, threading
 
 
-@check('C16', ['C16.v'])
+@check('C16', ['C16.v', 'C16sess.v'])
 def c16(ctx):
     n = 150 if ctx.quick else 5000
     rc, out, err, stats = harness(['queries', str(n)], timeout=3000)
